@@ -14,6 +14,8 @@ function S(f){ try { var v = f(); return typeof v === 'function' ? 'fn' : String
 function ga(x){ return x.a; } function gb(x){ return x.b; } function gc(x){ return x.c; } function gd(x){ return x.d; }
 function sa(x,v){ x.a = v; } function sb(x,v){ x.b = v; } function sc(x,v){ x.c = v; } function sd(x,v){ x.d = v; }
 function gl(x){ return x.length; }
+function sl(x,v){ x.length = v; }
+function dl(x){ return x.length + ':' + Object.keys(x).join(); }
 function gg1(){ return gv1; } function gg2(){ return gv2; } function sg1(v){ gv1 = v; }
 var O = [];
 """
@@ -54,7 +56,7 @@ class Hist:
             self.emit("O[%d] = Object.create(O[%d]);" % (i, p))
             self.protos[i] = p
         else:
-            self.emit("O[%d] = [1, 2, 3];" % i)
+            self.emit("O[%d] = %s;" % (i, ["[1, 2, 3]", "[1, 2, 3]", "[1.5, 2, 3, 4]", "['x', 'y']", "new String('ab')", "function(p, q){}"][r() % 6]))
             self.protos[i] = None
         self.n += 1
 
@@ -92,9 +94,12 @@ class Hist:
                 self.protos[o] = p
         elif c < 81:
             self.emit("Object.freeze(O[%d]);" % o)
-        elif c < 86:
+        elif c < 84:
             self.emit("print(S(function(){ return gl(O[%d]); }));" % o)
-        elif c < 92:
+        elif c < 88:
+            # `length` of an array is an ordinary slot whose WRITE is exotic (ArraySetLength deletes elements): a cached write must not bypass it
+            self.emit("print(S(function(){ sl(O[%d], %d); return dl(O[%d]); }));" % (o, r() % 5, o))
+        elif c < 93:
             g = r() % 4
             self.emit(["var gv1 = %d;" % (r() % 50), "globalThis.gv2 = %d;" % (r() % 50), "delete globalThis.gv2;",
                        "Object.defineProperty(globalThis, 'gv2', { get() { return 'GG'; }, configurable: true });"][g])
@@ -130,6 +135,10 @@ def corpus():
         # prototype replaced
         ["O[0] = {a: 1};", "O[1] = {a: 2};", "O[2] = Object.create(O[0]);", "print(S(function(){ return ga(O[2]); }) + S(function(){ return ga(O[2]); }));",
          "Object.setPrototypeOf(O[2], O[1]);", "print(S(function(){ return ga(O[2]); }));"],
+        # a cached write of an array's `length` must still run ArraySetLength (elements beyond the new length are deleted)
+        ["O[0] = [1, 2, 3];", "O[1] = [4, 5, 6];", "print(S(function(){ sl(O[0], 1); return dl(O[0]); }));", "print(S(function(){ sl(O[1], 1); return dl(O[1]); }));",
+         "print(S(function(){ return 2 in O[1]; }) + ' ' + S(function(){ sl(O[1], 5); return dl(O[1]); }));",
+         "O[2] = [7, 8, 9];", "Object.defineProperty(O[2], 'length', { writable: false });", "print(S(function(){ 'use strict'; sl(O[2], 0); return dl(O[2]); }) + ' ' + dl(O[2]));"],
     ]
 
 
@@ -226,7 +235,7 @@ def run(ck):
         import re
         receivers = [int(x) for x in re.findall(r"O\[(\d+)\]", stmt)]
         through_mutated_proto = h.risky or any(h.protos.get(i) in h.proto_mutated for i in receivers)
-        if through_mutated_proto and (on["completion"].startswith("panic index out of bounds") or on["completion"] == off["completion"]):
+        if through_mutated_proto and on["completion"].startswith("panic index out of bounds"):
             site = "ic-prototype-entry-stale"
         else:
             # decisive attribution: with entries for prototype properties switched off (hook) and everything else cached,
